@@ -1556,17 +1556,24 @@ fn forward_device_data(
     }
 
     let broker_topic_aliases = &mut connection.broker_topic_aliases;
-    let mut topic_alias = broker_topic_aliases
-        .as_ref()
-        .and_then(|aliases| aliases.get_alias(&request.filter));
+    let mut topic_alias = None;
+    let mut topic_alias_already_exists = false;
 
-    let topic_alias_already_exists = topic_alias.is_some();
-
-    // if topic alias doesn't exists, try creating new one!
-    if !topic_alias_already_exists {
+    // aliases are kept per filter and an alias stands for exactly one topic,
+    // so only a filter without wildcards can be replaced by one
+    if !protocol::has_wildcards(&request.filter) {
         topic_alias = broker_topic_aliases
-            .as_mut()
-            .and_then(|broker_aliases| broker_aliases.set_new_alias(&request.filter))
+            .as_ref()
+            .and_then(|aliases| aliases.get_alias(&request.filter));
+
+        topic_alias_already_exists = topic_alias.is_some();
+
+        // if topic alias doesn't exists, try creating new one!
+        if !topic_alias_already_exists {
+            topic_alias = broker_topic_aliases
+                .as_mut()
+                .and_then(|broker_aliases| broker_aliases.set_new_alias(&request.filter))
+        }
     }
 
     let subscription_id = connection.subscription_ids.get(&request.filter);
